@@ -391,10 +391,7 @@ Lemma file_list_in t i : forall recs,
 Proof.
   induction recs as [|n r IH]; cbn [file_list].
   - cbn [In]. split; [tauto|]. intros [(n & [] & _) _].
-  - assert (Hstep : forall P : Prop, (In i (file_list t r) \/ (P /\ is_ref i n = true /\ len_of i t <> 0)) <->
-                        ((exists n0, In n0 (n :: r) /\ is_ref i n0 = true) /\ len_of i t <> 0) \/ False -> True) by tauto.
-    clear Hstep.
-    destruct n as [nm [j|] st|nm dl kids].
+  - destruct n as [nm [j|] st|nm dl kids].
     + destruct (Z.eqb_spec (len_of j t) 0) as [E0|E0].
       * rewrite IH. split.
         -- intros [(n0 & Hn0 & Hr) Hl]. split; [|exact Hl]. exists n0. split; [right; exact Hn0|exact Hr].
@@ -451,8 +448,7 @@ Qed.
 
 Lemma zsum_perm l1 l2 : Permutation l1 l2 -> Alloc.zsum l1 = Alloc.zsum l2.
 Proof.
-  induction 1 as [|x l l' H IH|x y l|l l' l'' H1 IH1 H2 IH2]; rewrite ?zsum_cons; try lia.
-  reflexivity.
+  induction 1 as [|x l l' H IH|x y l|l l' l'' H1 IH1 H2 IH2]; rewrite ?zsum_cons; lia.
 Qed.
 
 (* the table conditions: distinct ids, and an inode is in the table iff some record references it *)
